@@ -19,11 +19,14 @@ import os
 
 from harness import vloop
 from harness.core import Failure, Prop
-from harness.oracle_c14 import check_trace
+from harness.oracle_c14 import TRANSFORMS, check_trace, port_cap, xform
 
 ORIGIN = contextvars.ContextVar('c14_origin', default=('expr', None))
 LAT = [None, 0, 1, 7, 20, 50, 120]
 DRAIN_S = 90.0
+# C14_NO_LAZY=1: no lazy (value-dependent suspension) write transforms - what stays silent on a tree without
+# fixes/C14-submit-order-lock.diff; function transforms with uniform suspension (MUL, ADD) are still exercised
+NO_LAZY = os.environ.get('C14_NO_LAZY') == '1'
 MODEL_NONE = -999999          # the value None (unavailable) as handed to the model
 
 
@@ -61,6 +64,7 @@ class Hx:
         self.subs = []          # {'v', 'res', 'origin'}
         self.load_task = None
         self.port = None
+        self.eval_error = ()
 
 
 class Rec:
@@ -149,9 +153,9 @@ def make_port_classes(core_ports):
                 sub['res'] = 'cancelled'
                 raise
             except Exception as e:
-                # raised before the call ever suspended: refused before anything was queued (e.g. the write
-                # transform of a disabled port cannot be evaluated) - not a submission
-                sub['res'] = 'err' if suspended else 'refused'
+                # refused before anything was queued - not a submission: raised before the call ever suspended, or
+                # the write transform could not be evaluated (disabled port, division by zero, …)
+                sub['res'] = 'refused' if (not suspended or isinstance(e, hx.eval_error)) else 'err'
                 sub['exc'] = type(e).__name__
                 raise
             else:
@@ -172,14 +176,19 @@ class C14(Prop):
             'sequences, expression chains, attribute changes, reset, enable/disable, explicit update passes, bursts '
             'larger than a reduced WRITE_VALUE_QUEUE_SIZE (1,2,3,4,16 and the live default), per-call read/write '
             'latencies from {no await, 0, 1, 7, 20, 50, 120 ms}, scripted read/write failures, polling loop on/off with '
-            'tick 10/50/200 ms, 12% of the cases load a port with a persisted value while writes arrive; a case is '
+            'tick 10/50/200 ms, 12% of the cases load a port with a persisted value while writes arrive; 5/9 of the '
+            'writable ports have a write transform (identity, MUL, ADD, lazy IF with unequal branches, IF failing for one '
+            'value) and get null / failing / both-branch values in same-instant bursts from API, direct and sequence '
+            'submitters (order only: such ports keep the default capacity); a case is '
             'non-trivial when at least two submissions of one port were pending together, a value was dropped, or a '
             'write arrived during the load-time write; distinct = distinct per-port event-kind sequence')
     CORRESPONDENCE = ('PortIO.step (submit/writerTake/writerAcquire/writeEnd/loadWrite*/readBegin/readEnd) <-> '
                       'BasePort._write_value_queued / _write_value_loop / load_from_data / read_transformed_value')
     TRUSTED = ['instrumented Port subclasses and the virtual-time event loop; asyncio runs code between awaits atomically',
                'the confirming main.update() after a write is a hidden step of the model (not compared)']
-    ASSUMPTIONS = ['submission order = order of entry into the public transform_and_write_value',
+    ASSUMPTIONS = ['submission order = order of entry into the public transform_and_write_value (call order), also when a '
+                   'write transform suspends the caller before the value is queued',
+                   'a call whose write transform cannot be evaluated raises and is not a submission',
                    '"told so" = the submitter\'s transform_and_write_value call raises asyncio.QueueFull '
                    '(API: a non-2xx answer)',
                    'an entry already taken by the writer task (waiting for the write lock) no longer counts as queued']
@@ -194,6 +203,8 @@ class C14(Prop):
         from qtoggleserver.core import main as core_main
         from qtoggleserver.core import ports as core_ports
         from qtoggleserver.core import api as core_api
+        from qtoggleserver.core import expressions as core_expressions
+        self.eval_error = (core_expressions.ExpressionEvalError,)
         from qtoggleserver.core.api.funcs import ports as api_ports
         from qtoggleserver import persist
         self.settings = settings
@@ -220,6 +231,9 @@ class C14(Prop):
 
     # ---------------------------------------------------------------- cases
     def corpus(self):
+        return [c for c in self._corpus() if not (NO_LAZY and any(pd['tr'] >= 4 for pd in c['ports']))]
+
+    def _corpus(self):
         reg = {'kind': 'reg', 'rlat': [1], 'wlat': [100], 'rfail': [0], 'wfail': [0], 'tr': 0, 'expr': None,
                'persist': None}
         return [
@@ -240,6 +254,19 @@ class C14(Prop):
             {'cap': 1, 'poll': True, 'tick': 50,
              'ports': [dict(reg, wlat=[50, 7, 50], persist={'value': 77, 'wlat': 120})],
              'ops': [[67, 'api', 0, 101], [120, 'w', 0, 102], [120, 'api', 0, 103]]},
+            # W2 (genuine defect, fixes/C14-submit-order-lock.diff): lazy IF write transform - the branches suspend a
+            # different number of times, values submitted back to back overtake each other before they are queued
+            {'cap': 4, 'poll': False, 'tick': 50, 'ports': [dict(reg, wlat=[20], tr=4)],
+             'ops': [[0, 'w', 0, 100], [0, 'w', 0, 200], [0, 'w', 0, 120], [0, 'w', 0, 300]]},
+            # W2b: the same through a sequence with zero delays, and a null value between two numbers
+            {'cap': 4, 'poll': True, 'tick': 50, 'ports': [dict(reg, wlat=[7], tr=4)],
+             'ops': [[0, 'seq', 0, [100, 200, None, 300], [0, 0, 0, 0], 1], [40, 'api', 0, 120], [40, 'w', 0, None],
+                     [40, 'api', 0, 220]]},
+            # function transforms with uniform suspension: null between numbers, failing transform value (105) in a
+            # burst, API + direct + sequence submitters at one instant
+            {'cap': 2, 'poll': False, 'tick': 50, 'ports': [dict(reg, wlat=[20], tr=2), dict(reg, wlat=[1, 20], tr=5)],
+             'ops': [[0, 'w', 0, 5], [0, 'w', 0, None], [0, 'w', 0, 7], [1, 'api', 1, 104], [1, 'w', 1, 105],
+                     [1, 'w', 1, None], [1, 'seq', 1, [106, 105, 107], [0, 0, 0], 1], [1, 'api', 1, 108]]},
             # overflow: burst of 5 on cap 2 during a slow write: drop oldest, submitter told
             {'cap': 2, 'poll': True, 'tick': 50, 'ports': [dict(reg)],
              'ops': [[0, 'w', 0, 10], [1, 'api', 0, 11], [2, 'w', 0, 12], [3, 'api', 0, 13], [4, 'w', 0, 14]]},
@@ -257,6 +284,13 @@ class C14(Prop):
         ]
 
     def gen(self, rng, tier):
+        case = self._gen(rng, tier)
+        if NO_LAZY:
+            for pd in case['ports']:
+                pd['tr'] = {4: 2, 5: 3}.get(pd['tr'], pd['tr'])
+        return case
+
+    def _gen(self, rng, tier):
         big = tier != 'quick'
         cap = rng.choice([1, 2, 2, 3, 4, 4, 4, 16, 0])          # 0 = the live default class attribute
         nports = rng.choice([1, 1, 2, 2, 3, 4 if big else 3])
@@ -268,7 +302,7 @@ class C14(Prop):
                  'wlat': [rng.choice(LAT + [20, 50, 120]) for _ in range(rng.randint(1, 3))],
                  'rfail': [1 if rng.random() < 0.08 else 0 for _ in range(rng.randint(1, 4))],
                  'wfail': [1 if rng.random() < 0.15 else 0 for _ in range(rng.randint(1, 4))],
-                 'tr': rng.choice([0, 0, 1]), 'expr': None, 'persist': None}
+                 'tr': rng.choice([0, 0, 0, 1, 2, 3, 4, 4, 5]), 'expr': None, 'persist': None}
             if kind == 'reg' and j > 0 and rng.random() < 0.5:
                 i = rng.randrange(j)
                 p['expr'] = ['ref', i] if rng.random() < 0.5 else ['add', i, rng.randint(1, 9)]
@@ -280,13 +314,21 @@ class C14(Prop):
         val = [100]
 
         def nv():
+            # distinct values on both sides of the IF threshold (150) of transform 4; 105 fails in transform 5
             val[0] += 1
-            return val[0]
+            return val[0] if rng.random() < 0.6 else val[0] + 100
+
+        def wv(port):
+            # a direct submission; on a port with a function transform sometimes the unavailable value (None)
+            if ports[port]['tr'] >= 2 and rng.random() < 0.2:
+                return None
+            return nv()
 
         def writes(port, n, step):
             nonlocal t
             for _ in range(n):
-                ops.append([t, rng.choice(['w', 'w', 'api']), port, nv()])
+                k = rng.choice(['w', 'w', 'api'])
+                ops.append([t, k, port, nv() if k == 'api' else wv(port)])
                 t += rng.choice(step)
         load = rng.random() < 0.12
         if load:
@@ -305,7 +347,8 @@ class C14(Prop):
             r = rng.random()
             t += rng.choice([0, 0, 0, 1, 1, 5, 20, 50, 130])
             if r < 0.30:
-                ops.append([t, 'w', rng.choice(regs), nv()])
+                j = rng.choice(regs)
+                ops.append([t, 'w', j, wv(j)])
             elif r < 0.50:
                 ops.append([t, 'api', rng.choice(regs), nv()])
             elif r < 0.60:
@@ -314,8 +357,9 @@ class C14(Prop):
                        [0, 0, 0, 1, 1, 2, 7])
             elif r < 0.68:
                 k = rng.randint(1, 5)
-                ops.append([t, 'seq', rng.choice(regs), [nv() for _ in range(k)],
-                            [rng.choice([0, 1, 5, 20, 60]) for _ in range(k)], rng.randint(1, 3)])
+                j = rng.choice(regs)
+                ops.append([t, 'seq', j, [wv(j) for _ in range(k)],
+                            [rng.choice([0, 0, 1, 5, 20, 60]) for _ in range(k)], rng.randint(1, 3)])
             elif r < 0.75:
                 ops.append([t, 'attr', rng.randrange(nports)])
             elif r < 0.83:
@@ -358,8 +402,8 @@ class C14(Prop):
                 yield dict(case, ports=case['ports'][:j] + [dict(p, tr=0)] + case['ports'][j + 1:])
 
     # ---------------------------------------------------------------- real run
-    def _cap(self, case):
-        return case['cap'] or self.live_cap
+    def _cap(self, case, j):
+        return port_cap(case, j) or self.live_cap
 
     async def _real(self, case):
         cp, cm = self.core_ports, self.core_main
@@ -378,7 +422,7 @@ class C14(Prop):
 
         async def create(j, pdef):
             hx = hxs[j]
-            cls = self._cls(pdef['kind'], case['cap'])
+            cls = self._cls(pdef['kind'], port_cap(case, j))
             if pdef['persist'] is not None:
                 data = {'id': ids[j], 'enabled': True, 'persisted': True, 'value': pdef['persist']['value']}
                 if pdef['expr']:
@@ -392,11 +436,12 @@ class C14(Prop):
             if pdef['persist'] is None:
                 await port.enable()
                 if pdef['tr'] and pdef['kind'] == 'reg':
-                    # identity transforms: the transform code path without a suspension inside the evaluation
-                    # (function calls evaluate through asyncio.gather, which moves the enqueue to a later loop
-                    # iteration that the public boundary cannot observe)
-                    await port.set_attr('transform_write', f'${ids[j]}')
-                    await port.set_attr('transform_read', f'${ids[j]}')
+                    # 1: identity (the transform code path without a suspension); >= 2: function transforms, whose
+                    # evaluation suspends the submitting coroutine (arguments are gathered) - for a number of loop
+                    # iterations that may depend on the value (lazy IF, failing arguments)
+                    await port.set_attr('transform_write', TRANSFORMS[pdef['tr']])
+                    if pdef['tr'] == 1:
+                        await port.set_attr('transform_read', '$')
                 if pdef['expr']:
                     await port.set_attr('expression', expr_text(pdef['expr']))
 
@@ -460,6 +505,7 @@ class C14(Prop):
         try:
             for j, pdef in enumerate(case['ports']):
                 hxs.append(Hx(j, pdef, rec))
+                hxs[-1].eval_error = self.eval_error
             loaders = []
             for j, pdef in enumerate(case['ports']):
                 if pdef['persist'] is None:
@@ -555,11 +601,10 @@ class C14(Prop):
     # ---------------------------------------------------------------- model run
     def _model(self, case, driver, events, subs):
         """Feed the model with the observed order; returns (mismatch-or-None, model outcomes per port)."""
-        cap = self._cap(case)
         driver.ask('begin')
         n = len(case['ports'])
         for j in range(n):
-            r = driver.ask(f'port {cap} 1')
+            r = driver.ask(f'port {self._cap(case, j)} 1')
             assert r == f'ok {j}', r
             if case['ports'][j]['persist'] is None:
                 assert driver.ask(f'ldone {j}') == 'ok'
@@ -577,7 +622,8 @@ class C14(Prop):
             t, kind, p = ev[0], ev[1], (ev[2] if len(ev) > 2 else None)
             if kind == 'sub':
                 i, v = ev[3], ev[4]
-                x = MODEL_NONE if v is None else v
+                x = xform(case['ports'][p]['tr'], v)
+                x = MODEL_NONE if x is None else x
                 if x != int(x):
                     bad(f't={t} port {p}: non-integral value {x} cannot be handed to the model')
                     continue
@@ -663,8 +709,8 @@ class C14(Prop):
     # ---------------------------------------------------------------- case
     def run_case(self, case, driver):
         events, subs, api_log = self.loop.run_until_complete(self._real(case))
-        cap = self._cap(case)
-        fail_txt, tags, key = check_trace(case, cap, events, subs, api_log)
+        caps = [self._cap(case, j) for j in range(len(case['ports']))]
+        fail_txt, tags, key = check_trace(case, caps, events, subs, api_log)
         fail = Failure('property', fail_txt, real={'events': events[:400], 'subs': subs}) if fail_txt else None
         mism, outcomes = self._model(case, driver, events, subs)
         if fail is None and mism is None:
@@ -680,6 +726,7 @@ class C14(Prop):
                     break
         if fail is None and mism is not None:
             fail = Failure('correspondence', mism, real={'events': events[:400], 'subs': subs}, model=outcomes)
+        cap = case['cap'] or self.live_cap
         tags.add(f'cap={cap if cap < 100 else "default"}')
         observed = {'n_events': len(events), 'subs': [[(s['v'], s['res'], s['origin']) for s in ss] for ss in subs]}
         return fail, {'tags': sorted(tags), 'key': key, 'observed': observed}
